@@ -406,8 +406,75 @@ def extra_scenarios(ctx):
         shutil.rmtree(d, ignore_errors=True)
 
 
+MTIME_CHILD = r'''
+import datetime as dt, json, os, sys, tempfile, time, shutil, pathlib
+time.tzset()
+import uberjob.stores as st
+from uberjob.stores._file_store import get_modified_time
+req = json.load(sys.stdin)
+root = tempfile.mkdtemp(prefix="ujc12tz_")
+out = []
+try:
+    n = 0
+    for ts in req["instants"]:
+        for kind in ("text", "json", "pickle", "binary", "touch", "pathsource", "function"):
+            for pk in ("str", "pathlib"):
+                n += 1
+                p = os.path.join(root, "f%d" % n)
+                with open(p, "wb") as f:
+                    f.write(b"null" if kind == "json" else b"")
+                os.utime(p, (ts, ts))
+                q = pathlib.Path(p) if pk == "pathlib" else p
+                store = {"text": st.TextFileStore, "json": st.JsonFileStore, "pickle": st.PickleFileStore, "binary": st.BinaryFileStore,
+                         "touch": st.TouchFileStore, "pathsource": st.PathSource}.get(kind)
+                mt = get_modified_time(q) if store is None else store(q).get_modified_time()
+                if mt is None:
+                    out.append({"kind": kind, "path": pk, "ts": ts, "got": None})
+                    continue
+                want = dt.datetime.fromtimestamp(ts)
+                denotes = mt.timestamp()        # a naive datetime is read as local time, honouring fold
+                if denotes != ts or (mt.tzinfo is None and (mt != want or mt.fold != want.fold)):
+                    out.append({"kind": kind, "path": pk, "ts": ts, "got": repr(mt), "fold": mt.fold, "denotes": denotes, "want": repr(want), "want_fold": want.fold})
+finally:
+    shutil.rmtree(root, ignore_errors=True)
+print(json.dumps({"uberjob": os.path.dirname(st.__file__), "tzname": list(time.tzname), "bad": out, "n": n}))
+'''
+
+
+def mtime_zones(ctx):
+    """a file store's modified time denotes the instant of the file's mtime in EVERY process time zone, also for instants inside the
+    hour that local clocks repeat when daylight saving ends (the naive local datetime carries fold=1 there) and around the skipped hour"""
+    import subprocess
+    import zoneinfo
+    utc = dt.timezone.utc
+    zones = {"America/New_York": dt.datetime(2021, 11, 7, 6, 0, tzinfo=utc), "Europe/London": dt.datetime(2021, 10, 31, 1, 0, tzinfo=utc),
+             "Australia/Lord_Howe": dt.datetime(2021, 4, 3, 15, 0, tzinfo=utc), "America/St_Johns": dt.datetime(2021, 11, 7, 4, 30, tzinfo=utc), "UTC": dt.datetime(2021, 7, 1, tzinfo=utc)}
+    for z, back in zones.items():
+        x = int(back.timestamp())
+        spring = {"America/New_York": dt.datetime(2021, 3, 14, 7, 0, tzinfo=utc), "Europe/London": dt.datetime(2021, 3, 28, 1, 0, tzinfo=utc)}.get(z)
+        instants = sorted({x + k * 600 for k in range(-9, 10)} | {x - 1, x + 1, x - 3601, x + 3599} | ({int(spring.timestamp()) + k * 900 for k in range(-3, 4)} if spring else set()))
+        env = core.repo_env()
+        env["TZ"] = z
+        p = subprocess.run([core.PY, "-c", MTIME_CHILD], input=json.dumps({"instants": instants}), env=env, stdout=subprocess.PIPE, stderr=subprocess.PIPE, text=True, timeout=300)
+        ctx.case(("mtime-zones", z), nontrivial=z != "UTC")
+        if p.returncode != 0:
+            ctx.fail("mtime:zones-error", "TZ=%s: reading modified times of existing files raised: %s" % (z, p.stderr.strip().splitlines()[-1:] or "?"), {"zone": z, "stderr": p.stderr[-1500:]})
+            continue
+        rep = json.loads(p.stdout)
+        if not rep["uberjob"].startswith(core.REPO_SRC):
+            ctx.broke("C12 time-zone helper imported uberjob from the wrong place", rep["uberjob"])
+        ctx.count("mtime_zone_probes", z, rep["n"])
+        for b in rep["bad"][:3]:
+            ctx.fail("mtime:zones", "TZ=%s: the modified time a %s reports for a file last modified at %s (UTC) is %s fold=%s, which denotes %s: not the file's mtime%s"
+                     % (z, b["kind"], dt.datetime.fromtimestamp(b["ts"], utc).isoformat(), b["got"], b.get("fold"),
+                        "nothing" if b["got"] is None else dt.datetime.fromtimestamp(b["denotes"], utc).isoformat(),
+                        " (inside the repeated hour the naive local time must carry fold=%s)" % b.get("want_fold") if b.get("want_fold") else ""),
+                     {"zone": z, "tzname": rep["tzname"], **b})
+
+
 def run(ctx):
     core.use_repo()
+    mtime_zones(ctx)
     extra_scenarios(ctx)
     import uberjob.stores as st
     from uberjob.stores._mounted_store import MountedStore
@@ -546,6 +613,16 @@ def _run(ctx, st, make, fresh, get_modified_time, staged_write, TestMountedFileS
     # ------------------------------------------------------------------ binary
     bvals = [("allbytes", bytes(range(256))), ("empty", b""), ("terminator", b"a\r\nb\rc\n"), ("large", os.urandom(0) + bytes(rng.getrandbits(8) for _ in range(1000)) * 1049)]
     bvals += [("random", rng.randbytes(rng.randint(0, 40))) for _ in range(ctx.n(60, 1000))]
+    # values that ARE (or merely begin like) payloads of common container / compression / text formats: a store must not sniff them
+    import bz2
+    import gzip
+    import lzma
+    import zlib
+    bvals += [("lookalike", v) for v in (
+        gzip.compress(b"payload"), gzip.compress(b"a") + gzip.compress(b"b"), b"\x1f\x8b", b"\x1f\x8b\x08\x00junk", bz2.compress(b"p"), b"BZh9",
+        lzma.compress(b"p"), b"\xfd7zXZ\x00", zlib.compress(b"p"), b"\x78\x9c", b"PK\x03\x04", b"PK\x05\x06" + b"\0" * 18, b"\x28\xb5\x2f\xfd", b"\x04\x22\x4d\x18",
+        pickle.dumps([1, 2]), b"\x80\x04", b'{"a": 1}', b"\xef\xbb\xbf", b"\xff\xfe", b"\xfe\xff\x00a", b"aGVsbG8=", b"deadbeef", b"%PDF-1.4", b"\x89PNG\r\n\x1a\n",
+        b"#!/bin/sh\n", b"\x00\x00\x00\x00", b"\x1f", b"\x8b\x1f")]
     for cls, b in bvals:
         for pk in ("str", "pathlib"):
             for m in mounts:
